@@ -394,21 +394,30 @@ func checkC14(c *km.Ctx) {
 		}
 	}
 	const resetWindow = 24 * 3600 * secondNS
-	olderThanWindow := func(k km.Conj) bool {
-		for _, f := range k.List() {
-			d, isC := km.ConstInt(f.Y)
-			if !isC || d < resetWindow || (f.Op != token.GTR && f.Op != token.GEQ) {
-				continue
+	older := km.Prim{Name: "record older than the failure window", Direct: func(f km.Fact) bool {
+		cl, ok := f.X.(*ssa.Call)
+		if !ok {
+			return false
+		}
+		n := km.CalleeFull(cl.Common())
+		a := cl.Common().Args
+		// time.Since(t) > K, now.Sub(t) > K
+		if d, isC := km.ConstInt(f.Y); isC && d >= resetWindow && (f.Op == token.GTR || f.Op == token.GEQ) {
+			if (n == "time.Since" || n == "(time.Time).Sub") && (mentionsFieldOfType(a[len(a)-1], rateInfoT) || mentionsFieldOfType(a[0], rateInfoT)) {
+				return true
 			}
-			if cl, ok := f.X.(*ssa.Call); ok {
-				n := km.CalleeFull(cl.Common())
-				if (n == "time.Since" || n == "(time.Time).Sub") && (mentionsFieldOfType(cl.Common().Args[len(cl.Common().Args)-1], rateInfoT) || mentionsFieldOfType(cl.Common().Args[0], rateInfoT)) {
+		}
+		// t.Add(K).Before(now) is true, or t.Add(K).After(now) is false
+		if f.Op == token.ILLEGAL && ((n == "(time.Time).Before" && f.Pol) || (n == "(time.Time).After" && !f.Pol)) {
+			if add, ok := isCall(a[0], "(time.Time).Add"); ok && mentionsFieldOfType(add.Common().Args[0], rateInfoT) {
+				if d, isC := km.ConstInt(add.Common().Args[1]); isC && d >= resetWindow {
 					return true
 				}
 			}
 		}
 		return false
-	}
+	}}
+	olderThanWindow := func(k km.Conj) bool { return s.Holds(k, older) }
 	for _, fn := range c.P.AllFuncs {
 		top := fn
 		for top.Parent() != nil {
